@@ -90,6 +90,16 @@ def c18_renderings(E, blt, opts, r):
         bad('c18-json-actions', "JSON lists %d actions, the record %d" % (len(J['actions']), len(acts)))
         return out
 
+    # ---- rendering must not write into the record: every action still carries the number of the round it happened in (the 'X'
+    #      of the dump's last row belongs to the dump alone), in the record and in the JSON made from it
+    for k, (a, ja) in enumerate(zip(acts, J['actions'])):
+        if not (isinstance(a['round'], int) and not isinstance(a['round'], bool)) or ja.get('round') != a['round'] or \
+           not (isinstance(ja.get('round'), int) and not isinstance(ja.get('round'), bool)):
+            bad('c18-round-field', "action %d (%s): round is %r in the record and %r in the JSON" % (k, a['tag'], a['round'], ja.get('round')))
+            break
+    if [a['round'] for a in acts if isinstance(a['round'], int)] != sorted(a['round'] for a in acts if isinstance(a['round'], int)):
+        bad('c18-round-field', "round numbers of the actions are not in order after rendering")
+
     # ---- dump: one row per action under a header row; column counts
     if any(('\n' in a['msg'] or '\t' in a['msg']) for a in acts) or any(('\n' in cdict[c]['name'] or '\t' in cdict[c]['name']) for c in cids):
         rows = None     # a tab or newline inside a name breaks the table: outside the oracle's envelope
